@@ -80,6 +80,9 @@ def values_part(ck, tier):
         j = int(rng.integers(0, xs.size))
         perm = rng.permutation(xs.size)
         kde2 = make(sample[::-1].copy(), bandwidth=h)
+        kde3 = make(sample.astype(int), bandwidth=h)            # whole-number sample given as an integer array
+        if not (np.array_equal(np.asarray(kde3(xs), dtype=float), got_p) and np.array_equal(np.asarray(kde3.cdf(xs), dtype=float), got_c)):
+            ck.violation("an integer-typed sample gives the same estimate as the equal float sample", {**ident, "x": xs[j]}, site="GaussianKDE.dtype:sample")
         ok = (float(kde(xs[j])) == got_p[j] and float(kde.cdf(xs[j])) == got_c[j] and np.array_equal(np.asarray(kde(xs[perm])), got_p[perm])
               and np.array_equal(np.asarray(kde.cdf(xs[perm])), got_c[perm]) and np.array_equal(np.asarray(kde2(xs)), got_p)
               and np.array_equal(np.asarray(kde2.cdf(xs)), got_c))
